@@ -711,7 +711,8 @@ fn keyed_flags(n: &Node) -> Vec<bool> {
 }
 
 struct SplitCtx {
-    vmask: u32,
+    /// version of every file: an element may be split among the files that hold it if it is splittable in all of THEIR versions
+    versions: Vec<u32>,
     mode: Mode,
     permute: bool,
     p_shared: u64,
@@ -730,7 +731,8 @@ fn choose_subset(set: u8, rng: &mut Rng, ctx: &SplitCtx) -> u8 {
 
 fn assign(n: &mut Node, set: u8, ctx: &SplitCtx, rng: &mut Rng) {
     n.files = set;
-    let splittable = n.ety.splittable() & ctx.vmask == ctx.vmask;
+    let vm: u32 = (0..4).filter(|f| set & (1 << f) != 0).fold(0u32, |a, f| a | ctx.versions.get(f).copied().unwrap_or(0));
+    let splittable = n.ety.splittable() & vm == vm;
     let ordered = n.ety.is_ordered();
     let keyed = keyed_flags(n);
     for (pos, c) in n.els_mut().enumerate() {
@@ -1446,6 +1448,70 @@ fn conflicts(k: &mut Sink, rep: &mut Rep, rng: &mut Rng, case: &Case, texts: &[S
 // driver
 // ------------------------------------------------------------------------------------------------
 
+/// hand-written partial views that every run loads in every order (C09): the merged model must hold exactly the elements of
+/// the files, whatever the order, and every load must succeed
+fn fixed_cases(k: &mut Sink, rep: &mut Rep) {
+    let header = |xsd: &str| format!("<?xml version=\"1.0\" encoding=\"utf-8\"?>\n<AUTOSAR xsi:schemaLocation=\"http://autosar.org/schema/r4.0 {xsd}\" xmlns=\"http://autosar.org/schema/r4.0\" xmlns:xsi=\"http://www.w3.org/2001/XMLSchema-instance\">");
+    let sys = |mapping: &str| format!("{}\n<AR-PACKAGES><AR-PACKAGE><SHORT-NAME>Sys</SHORT-NAME><ELEMENTS>\n  <SYSTEM><SHORT-NAME>System</SHORT-NAME>\n    <MAPPINGS><SYSTEM-MAPPING><SHORT-NAME>Map</SHORT-NAME>\n      <SW-MAPPINGS>\n        <SWC-TO-ECU-MAPPING><SHORT-NAME>{mapping}</SHORT-NAME></SWC-TO-ECU-MAPPING>\n      </SW-MAPPINGS>\n    </SYSTEM-MAPPING></MAPPINGS>\n  </SYSTEM>\n</ELEMENTS></AR-PACKAGE></AR-PACKAGES></AUTOSAR>", header("AUTOSAR_00051.xsd"));
+    let legacy = format!("{}\n<AR-PACKAGES><AR-PACKAGE><SHORT-NAME>Legacy</SHORT-NAME><ELEMENTS>\n  <ECU-INSTANCE><SHORT-NAME>OldEcu</SHORT-NAME></ECU-INSTANCE>\n</ELEMENTS></AR-PACKAGE></AR-PACKAGES></AUTOSAR>", header("AUTOSAR_00050.xsd"));
+    // SW-MAPPINGS is splittable from AUTOSAR_00051 on: two 00051 views that differ below it, and an unrelated file of an older
+    // version in the same model (the split point must be judged by the versions of the files that hold it)
+    let cases: Vec<(&str, Vec<(String, String)>)> = vec![(
+        "split point whose splittable mask depends on the version, next to an unrelated older file",
+        vec![("sys_a.arxml".to_string(), sys("MapA")), ("sys_b.arxml".to_string(), sys("MapB")), ("legacy.arxml".to_string(), legacy)],
+    )];
+    for (title, docs) in cases {
+        k.stat("fixed_cases");
+        let mut expected: BTreeSet<String> = BTreeSet::new();
+        let mut alone_ok = true;
+        for (name, text) in &docs {
+            let m = AutosarModel::new();
+            match m.load_buffer(text.as_bytes(), name, true) {
+                Ok(_) => { for (_, e) in m.elements_dfs() { expected.insert(e.xml_path()); } }
+                Err(_) => alone_ok = false,
+            }
+        }
+        if !alone_ok { k.stat("fixed_case_not_loadable_alone"); continue }
+        let mut texts_seen: BTreeSet<String> = BTreeSet::new();
+        for order in permutations(docs.len()) {
+            k.stat("fixed_case_load_orders");
+            let ordered: Vec<(String, String)> = order.iter().map(|i| docs[*i].clone()).collect();
+            let m = AutosarModel::new();
+            let mut failed: Option<String> = None;
+            for (name, text) in &ordered {
+                let r = catch_unwind(AssertUnwindSafe(|| m.load_buffer(text.as_bytes(), name, true).map(|_| ()).map_err(|e| e.to_string())));
+                match r {
+                    Ok(Ok(())) => {}
+                    Ok(Err(e)) => { failed = Some(format!("loading {name} fails: {e}")); break }
+                    Err(_) => { failed = Some(format!("loading {name} panics")); break }
+                }
+            }
+            if failed.is_none() {
+                let got: BTreeSet<String> = m.elements_dfs().map(|(_, e)| e.xml_path()).collect();
+                if got != expected {
+                    failed = Some(format!("the merged model is not the union of the files: {} elements, expected {}", got.len(), expected.len()));
+                } else {
+                    m.sort();
+                    let mut t = String::new();
+                    let mut fs: Vec<ArxmlFile> = m.files().collect();
+                    fs.sort_by_key(|f| f.filename());
+                    for f in fs { t.push_str(&f.serialize().unwrap_or_default()); }
+                    texts_seen.insert(t);
+                }
+            }
+            if let Some(msg) = failed {
+                let file = rep.write_docs(&format!("[fixed-case] {title}: {msg}"), &ordered, "");
+                k.fail(format!("[C09] fixed-case: {title}: in the order {:?} {msg} replay={file}", ordered.iter().map(|d| d.0.as_str()).collect::<Vec<_>>()));
+                break;
+            }
+        }
+        if texts_seen.len() > 1 {
+            let file = rep.write_docs(&format!("[fixed-case] {title}: the sorted texts of the files depend on the load order"), &docs, "");
+            k.fail(format!("[C09] fixed-case: {title}: the merged content depends on the load order replay={file}"));
+        }
+    }
+}
+
 pub fn run(out: &str, seed: u64, thorough: bool, _side: &str) {
     let prev = std::panic::take_hook();
     std::panic::set_hook(Box::new(|_| {}));
@@ -1458,6 +1524,7 @@ pub fn run(out: &str, seed: u64, thorough: bool, _side: &str) {
     let mut kinds_seen: BTreeMap<&'static str, u64> = BTreeMap::new();
     let mut gen_rejects = 0usize;
     let mut mi = 0usize;
+    fixed_cases(&mut k, &mut rep);
     while mi < masters {
         if start.elapsed() > limit { k.stat("stopped_by_time_limit"); break }
         mi += 1;
@@ -1483,8 +1550,7 @@ pub fn run(out: &str, seed: u64, thorough: bool, _side: &str) {
         let versions: Vec<AutosarVersion> = (0..nfiles).map(|_| {
             if !mixed { mver } else if !near.is_empty() && rng.chance(2, 3) { near[rng.below(near.len())] } else { compatible[rng.below(compatible.len())] }
         }).collect();
-        let vmask: u32 = versions.iter().fold(0u32, |a, v| a | *v as u32);
-        let ctx = SplitCtx { vmask, mode, permute: rng.chance(3, 4), p_shared: [30, 50, 60, 80][rng.below(4)] };
+        let ctx = SplitCtx { versions: versions.iter().map(|v| *v as u32).collect(), mode, permute: rng.chance(3, 4), p_shared: [30, 50, 60, 80][rng.below(4)] };
         assign(&mut root, (1u8 << nfiles) - 1, &ctx, &mut rng);
         let case = Case { root, nfiles, versions: versions.clone(), mode };
         let prep = match prepare(&case, true) {
